@@ -223,9 +223,9 @@ func runPersist(pc *PersistCase, generate bool, nops int, rng *core.Rng) (out pe
 // RunPersist runs the round-trip cases of one shard (property C19).
 func RunPersist(col *core.Collector, tier string, seed uint64, shard, nshards int, replayDir string) {
 	col.Note("rule: a source cache driven by a generated sequence is saved, the clock is offset (0, small, exactly a deadline, large) and the data is loaded into an empty cache of the same configuration with an equal, larger or smaller maximum; non-trivial = at least 2 entries saved; distinct = hash of (config, ops, offset, target maximum)")
-	n := 4000
+	n := 24000
 	if tier == "thorough" {
-		n = 200000
+		n = 1500000
 	}
 	for i := shard; i < n; i += nshards {
 		rng := core.NewRng(core.Derive(seed, core.StrLabel("C19"), uint64(i)))
